@@ -56,6 +56,20 @@ CSSVALUE = [
     ('stylesheet.resolve_numeric_value', 'a number without unit gets the int / float unit of the property unless the property is unit-less; a unit alias is replaced'),
     ('stylesheet.resolve_value_keywords', 'literal values are resolved against the snippet keywords, the others are left as written'),
 ]
+CONVERT = [
+    ('abbreviation.stringify.RepeaterPlaceholder', '$# takes its text from the closest enclosing *implicit* repeater (none: no text); the line is picked by that repeater\'s counter'),
+    ('abbreviation.convert.ConvertState.__init__', 'the wrap text is kept as given; its non-blank lines (strip() non-empty) are what implicit repeaters count'),
+    ('abbreviation.convert.convert_attribute', 'a quoted / braced attribute value loses exactly its delimiters, on a copy of the token list (the parsed abbreviation is converted once per repetition)'),
+    ('output_stream.attr_quote', 'the quote character depends only on the attribute kind and output.attributeQuotes'),
+]
+LINES = [
+    ('markup.format.utils.split_by_lines', 'tokens are cut at the line breaks inside string tokens; the text after the last break stays the open current line'),
+    ('output_stream.OutputStream.push_newline', 'a line break emits newline + base indent (+ indent for a level), advances line and resets column to the width of what follows the break'),
+]
+NUMBER = [
+    ('css_abbreviation.tokenizer.consume_number', 'a css number is -? digits [. digits] or -? . digits; a lone dash or dot is not consumed'),
+    ('math_expression.parser.consume_number', 'a number is . digits or digits [. digits]; anything else restores the position'),
+]
 
 
 def _run(p, res, rname, items):
@@ -92,3 +106,31 @@ def tbl_cssmatch(p, res):
 @rule('TBL-CSSVALUE', 'N', 'stylesheet value resolution: reviewed case analysis')
 def tbl_cssvalue(p, res):
     _run(p, res, 'TBL-CSSVALUE', CSSVALUE)
+
+
+@rule('TBL-CONVERT', 'N', 'converter and stringifier helpers: reviewed case analysis')
+def tbl_convert(p, res):
+    import ast as _ast
+
+    def any_repeater(p, f):
+        """$# must look for an *implicit* repeater: a function that never reads `.implicit` takes whatever repeater is innermost"""
+        if not any(isinstance(n, _ast.Attribute) and n.attr == 'implicit' for n in f.body_nodes()):
+            return f.node, 'RepeaterPlaceholder', 'the placeholder never looks at `.implicit`: it takes its line from the innermost repeater of any kind (the counter of an explicit *N inside the wrapped element picks the line)'
+        return None
+    for fq, msg in CONVERT:
+        check_table(p, res, 'TBL-CONVERT', fq, msg, detectors=(any_repeater,) if fq.endswith('RepeaterPlaceholder') else ())
+    res.require_floor(2)
+
+
+@rule('TBL-LINES', 'N', 'line splitting and line-break emission: reviewed case analysis')
+def tbl_lines(p, res):
+    for fq, msg in LINES:
+        check_table(p, res, 'TBL-LINES', fq, msg)
+    res.require_floor(1)
+
+
+@rule('TBL-NUMBER', 'N', 'number scanners: reviewed case analysis')
+def tbl_number(p, res):
+    for fq, msg in NUMBER:
+        check_table(p, res, 'TBL-NUMBER', fq, msg)
+    res.require_floor(1)
